@@ -24,6 +24,18 @@ func BPlusTreeStore.GetLast
   ensures C14/last-belongs-to-table: isnil(result_1) ==> result_0 != nil && result_0.Key[-1] == prefixOf(table)
   call 3 invariant result != nil && (isnil(result.Key) || result.Key[-1] == prefixOf(table))
 
+// The descent visits the keys of the WHOLE tree in decreasing order, starting at the greatest:
+// the callback has to go on while it is still above this table and to stop at the first key
+// of the table (its greatest) or below it. (Necessary for "returns the greatest key of that
+// table"; that the B-tree really visits in decreasing order is google/btree's, assumed.)
+func BPlusTreeStore.GetLast.$1
+  props C14
+  requires istype(i, KVItem) && len(dyn(i, KVItem).Key) >= 1
+  captures local(result) != nil
+  modifies everything
+  ensures C14/skips-greater-tables: dyn(i, KVItem).Key[0] > prefixOf(table) ==> result
+  ensures C14/stops-at-or-below-the-table: dyn(i, KVItem).Key[0] <= prefixOf(table) ==> !result
+
 func NewBPlusKVPairReader
   props C14
   ensures result != nil && fresh(result) && result.prefix == prefixOf(table) && result.db == db && len(result.lastKey) == 1 && result.lastKey[0] == prefixOf(table)
